@@ -212,6 +212,60 @@ theorem wait_closes_stdin_first {c : Cfg} {script : List CAct} {es : List Ev} {s
   obtain ⟨h1, h2, -, -, h5, -⟩ := completed_den hr hc
   exact ⟨hc, by simpa [init] using h5, by simpa [init] using h1, by simpa [init] using h2⟩
 
+/-- The parent's read end of stdout / stderr is never released while the child lives — in every reachable
+state of every plan a reader is done (= the handle is closed or dropped) only after the child has exited.
+So the child never observes EPIPE / SIGPIPE on a pipe that the parent configured as piped. -/
+theorem reader_end_outlives_child {c : Cfg} {script : List CAct} {payload : Bytes} {b : Bool} {es : List Ev} {s : St}
+    (hr : run c (init script payload b) es = some s) (ha : s.status = none) :
+    s.routDone = false ∧ s.rerrDone = false := by
+  have hi := inv_run (inv_init c script payload b) hr
+  constructor
+  · cases h : s.routDone with
+    | false => rfl
+    | true => have := (hi.routDone h).1; simp [ha] at this
+  · cases h : s.rerrDone with
+    | false => rfl
+    | true => have := (hi.rerrDone h).1; simp [ha] at this
+
+/-- A handle left inside the `Child` (`child.wait()` / `Command::status()` with stdout and/or stderr piped but
+not taken: plans `outHeld`, `errHeld`, `allHeld`, and `waitDrain`) lives exactly as long as the wait: it is
+released only when the wait has completed (with the child's status), never before. -/
+theorem held_handle_released_after_wait {c : Cfg} {script : List CAct} {payload : Bytes} {b : Bool} {es : List Ev}
+    {s : St} (hr : run c (init script payload b) es = some s) :
+    (c.plan.deps .Ro .Wt = true → s.routDone = true → ∃ st, s.wt = .done st ∧ s.status = some st) ∧
+    (c.plan.deps .Re .Wt = true → s.rerrDone = true → ∃ st, s.wt = .done st ∧ s.status = some st) := by
+  have hi := inv_run (inv_init c script payload b) hr
+  obtain ⟨h1, h2⟩ := heldAfterWait_run (heldAfterWait_init c script payload b) hr
+  have key : s.wt.isDone = true → ∃ st, s.wt = .done st ∧ s.status = some st := by
+    intro hd
+    cases hw : s.wt with
+    | done st => exact ⟨st, rfl, hi.wtDone st hw⟩
+    | idle => simp [hw, WaitPc.isDone] at hd
+    | started => simp [hw, WaitPc.isDone] at hd
+    | ready => simp [hw, WaitPc.isDone] at hd
+    | taken => simp [hw, WaitPc.isDone] at hd
+  exact ⟨fun a b => key (h1 a b), fun a b => key (h2 a b)⟩
+
+/-- `wait` / `status` with handles left inside the `Child` returns the real status: io_uring, any plan in
+which the writer is free, and for each output stream either its reader runs concurrently or what the child
+writes to it fits into the pipe (the documented limit of an unread pipe, the same as in std): every
+maximal schedule finishes with the status the program denotes, and the streams that are read are complete. -/
+theorem held_streams_complete {c : Cfg} {script : List CAct} {payload : Bytes} {b : Bool} {es : List Ev} {s : St}
+    (hp : c.Pos) (hw : wfScript script = true) (hnb : c.blocking = false) (hW : ∀ x, c.plan.deps .W x = false)
+    (ho : (∀ x, c.plan.deps .Ro x = false) ∨ (denS script (init script payload b).wleft).out.length ≤ c.capOut)
+    (he : (∀ x, c.plan.deps .Re x = false) ∨ (denS script (init script payload b).wleft).err.length ≤ c.capErr)
+    (hr : run c (init script payload b) es = some s) (hs : Stuck c s) :
+    s.completed = true ∧ s.wt = .done (denS script (init script payload b).wleft).st ∧
+    s.rout = (denS script (init script payload b).wleft).out ∧
+    s.rerr = (denS script (init script payload b).wleft).err := by
+  have hi := inv_run (inv_init c script payload b) hr
+  have hwf := wf_run (s := init script payload b) (by simpa [init] using hw) hr
+  have hd := den_run (inv_init c script payload b) hr
+  rw [den_init] at hd
+  have hc := stuck_completed_mixed hp hi hwf hnb hW (by rw [hd]; exact ho) (by rw [hd]; exact he) hs
+  obtain ⟨h1, h2, -, -, h5, -⟩ := completed_den hr hc
+  exact ⟨hc, h5, h1, h2⟩
+
 /-- `wait` never makes up a status: what it hands out is the child's status or nothing (the error of
 `waitpid` when something else in the process has reaped the child). -/
 theorem wait_never_fabricates (reaped : Bool) (st st' : Status) (h : waitOutcome reaped st = some st') : st' = st := by
@@ -361,6 +415,25 @@ example :
     let c : Cfg := { exCfg with plan := .held, blocking := true }
     let s := runCanon c 100 (init [.copy none 4 .out, .emit .out [9], .exit 5] [] false)
     s.completed = true ∧ s.rout = [9] ∧ s.wt = .done (.exited 5) := by
+  decide
+
+/-- `sh -c 'echo out; echo err >&2; exit 3'` with stdout and stderr piped but not taken (`allHeld`) and with
+only stderr left in the `Child` (`errHeld`): the real exit code, and the plans satisfy `held_streams_complete` -/
+example :
+    let c : Cfg := { exCfg with plan := .allHeld }
+    let s := runCanon c 100 (init [.emit .out [1], .emit .err [2], .exit 3] [] true)
+    s.completed = true ∧ s.wt = .done (.exited 3) := by
+  decide
+
+example : (∀ x, Plan.errHeld.deps .W x = false) ∧ (∀ x, Plan.errHeld.deps .Ro x = false) ∧
+    Plan.errHeld.deps .Re .Wt = true ∧ Plan.allHeld.deps .Ro .Wt = true := by
+  refine ⟨?_, ?_, rfl, rfl⟩ <;> intro x <;> cases x <;> rfl
+
+/-- more than the pipe holds written to an untaken stdout: the wait cannot complete (std blocks as well) -/
+example :
+    let c : Cfg := { exCfg with plan := .outHeld }
+    let s := runCanon c 100 (init [.emit .out [1, 2, 3], .exit 0] [] true)
+    (next c s).isNone = true ∧ s.completed = false ∧ s.pout = [1, 2] ∧ s.pend = [3] := by
   decide
 
 /-- wait-then-drain with outputs that fit (`fits_complete`): both pipes still hold their bytes after exit -/
